@@ -12,6 +12,14 @@ TRUST = ("Trusted: govc itself (go/ssa semantics, memory model, contract parser)
          "slice/string/map lengths < 2^48, sequential semantics. Integers are mathematical with Go wrap-around written out.")
 
 CLAIMED = {
+ "C16": dict(
+   text=("Deductive proof on the real cursor functions: (*lexer).next advances the position by the width of the decoded character (assumed contract of "
+         "utf8.DecodeRuneInString), adds one line and resets both columns on a line feed, counts every other character -- a tab or a multi-byte character "
+         "included -- as one column, and changes nothing else; backup undoes exactly one next; consume moves only the token start; Statement.Location and "
+         "the Source/Location accessors print the stored file, line and column unchanged. Bounded (labelled): statement positions, syntax-error positions "
+         "and positions inside semantic errors against a text generator that records where it writes each token (tabs, CR LF, comments, multi-byte "
+         "characters, multi-line strings). Not decided deductively: the token-to-statement plumbing of the lexer states and the parser (string content)."),
+   ref="8 (C16)"),
  "C15": dict(
    text=("Deductive proof, for all inputs, on the real functions (go/ssa of the working tree): Number.Less/Equal equal comparison of value*10^(18-fd) "
          "in exact integer arithmetic for every pair of (magnitude, sign, fraction-digits<=18), incl. mixed fraction digits and negative zero; "
